@@ -363,6 +363,10 @@ def run(ctx):
         w2 = walk(d2, site)
         compare(ctx, ops, w1, w2, site, "retry after fault")
         ctx.probes["retry_ok"] += 1
+    # ---- history on the path: a *different* domain of the same exported size is written over the same file and parsed
+    # back (a reader that remembers what it read from this path must notice the new content)
+    if not use_fixture and f.chance(1, 2):
+        overwrite_same_path(ctx, W, text, path, exporter, ops, site)
     # ---- second round: export the re-parsed domain (under the current hash schedule), parse again
     path2 = ctx.rundir / "exported2.pddl"
     try:
@@ -376,6 +380,48 @@ def run(ctx):
     compare(ctx, ops, w2, w3, site + " (2nd round)", "second export/parse round")
     ctx.log("done", sorted(w3["actions"]))
     ctx.steps += 3
+
+
+def overwrite_same_path(ctx, W, text, path, exporter, ops, site):
+    import re
+    # variant: one single-digit numeric constant of the source text replaced by another digit (same length)
+    spots = [m.start(1) for m in re.finditer(r"[ (]([1-9])[ )]", text) if not C_in_comment(text, m.start(1))]
+    if not spots:
+        ctx.probes["no_same_length_variant"] += 1
+        return
+    i = spots[ops.draw(len(spots))]
+    new_digit = str((int(text[i]) % 9) + 1)
+    text_b = text[:i] + new_digit + text[i + 1:]
+    try:
+        ctx.new_epoch()
+        db = C.parse_domain(ctx, text_b, "variant.pddl")
+    except Exception:
+        ctx.probes["variant_unparsable"] += 1
+        return
+    wb = walk(db, "DomainParser")
+    before = fs.read_real_bytes(path)
+    try:
+        exporter.export_domain(db, path)
+    except Exception as e:
+        raise Violation("C08/export-raised", "DomainExporter.export_domain", f"variant: {type(e).__name__}: {e}",
+                        {"simplified_condition": any(has_simplified_condition(v) for v in wb["actions"].values())})
+    after = fs.read_real_bytes(path)
+    ctx.probes["same_path_overwritten"] += 1
+    if len(after) == len(before) and after != before:
+        ctx.probes["same_path_same_size_different_content"] += 1
+    ctx.new_epoch()
+    d2 = reparse(ctx, path, {}, site + " (same path, other domain)", after)
+    w2 = walk(d2, site)
+    try:
+        compare(ctx, ops, wb, w2, site, "another domain exported over the same path")
+    except Violation as v:
+        raise Violation(v.kind.replace("C08/", "C08/overwrite-"), v.site, v.detail, v.features)
+    ctx.new_epoch()
+
+
+def C_in_comment(text, i):
+    ls = text.rfind("\n", 0, i) + 1
+    return ";" in text[ls:i]
 
 
 def reparse(ctx, path, kw, site, on_disk):
